@@ -62,7 +62,8 @@ def _index_local(f, operand):
 def check_delta(chk, prog):
     R = chk.rule("R-DELTA", "in Query::add_rules_from_cached every Constraint is GeConst or LtConst with val = mid_ts.to_value() and col = ts_col of an atom "
                  "paired with cached_plan.atom_mapping of the same atom index; each variant has one GeConst (focus) pushed first after clear(), LtConst only in a loop over atoms[0..focus]")
-    f = prog.need(ARFC)
+    f = prog.need_role(ARFC, lambda g: g.crate == "egglog_bridge" and len([c for c in g.calls if c.p.endswith("add_rule_from_cached_plan")]) >= 2,
+                       "bridge function building several variants with add_rule_from_cached_plan")
     mid = [i for i in range(1, f.argc + 1) if f.locals[i].endswith("Timestamp")]
     if not mid:
         chk.missing(R, "Timestamp parameter of add_rules_from_cached")
@@ -182,7 +183,8 @@ def check_delta(chk, prog):
 def check_lastrun(chk, prog):
     R = chk.rule("R-LASTRUN", "run_rules_impl stores next_ts into RuleInfo.last_run_at after add_rules_from_cached read the old value; callers pass a next_ts() "
                  "read with no inc_ts between the read and the call; writers of last_run_at are the frozen set")
-    f = prog.need(BR + "run_rules_impl")
+    f = prog.need_role(BR + "run_rules_impl", lambda g: g.crate == "egglog_bridge" and bool(g.calls_to("Database::run_rule_set")),
+                       "bridge function calling Database::run_rule_set")
     nts = [i for i in range(1, f.argc + 1) if f.locals[i].endswith("Timestamp")]
     stores = list(field_writes(f, "last_run_at"))
     adds = f.calls_to(ARFC)
@@ -204,16 +206,17 @@ def check_lastrun(chk, prog):
                 why = "add_rules_from_cached is not given info.last_run_at as mid_ts"
     chk.judge(ok, R, BR + "run_rules_impl:bookkeeping", "variants built from old last_run_at, then last_run_at := next_ts", why, f.loc)
     # writers
-    allowed = {BR + "run_rules_impl", BR + "EGraph::rebuild", BR + "EGraph::rebuild_parallel"}
+    model = rc.RebuildModel(prog)
+    allowed = {f.name} | set(model.rebuilders)      # by role: the rule-set runner and the rebuilders
     writers = set()
     for g in prog.lib_fns(["egglog_bridge", "egglog"]):
         if list(field_writes(g, "last_run_at")):
             writers.add(g.root or g.name)
-    chk.judge(writers <= allowed and BR + "run_rules_impl" in writers, R, "writers-of-RuleInfo.last_run_at", f"writers: {sorted(writers)}",
+    chk.judge(writers <= allowed and f.name in writers, R, "writers-of-RuleInfo.last_run_at", f"writers: {sorted(writers)}",
               f"unexpected writer of RuleInfo.last_run_at: {sorted(writers - allowed)}", None)
     # callers: next_ts read, no inc_ts in between
     n = 0
-    for g, c in prog.direct_callers(BR + "run_rules_impl"):
+    for g, c in prog.direct_callers(f.name):
         n += 1
         ta = g.origins(c.args[3])
         reads = [a for a in ta if a[0] == "call" and a[1] == BR + "EGraph::next_ts"]
@@ -236,7 +239,7 @@ def check_lastrun(chk, prog):
             okc = all(_no_inc_between(g, a[2], c.bb) for a in reads)
             why = "inc_ts can run between the next_ts() read and run_rules_impl (rows written by the run would carry an old stamp)"
         chk.judge(okc, R, f"{g.root or g.name}:next_ts-arg#{n}", "passes a next_ts() read with no inc_ts before the run", why, c.loc)
-    chk.floor(R, n, 4, "callers of run_rules_impl")
+    chk.floor(R, n, 4, "callers of the rule-set runner (run_rules_impl)")
 
 
 def _no_inc_between(g, read_bb, use_bb):
